@@ -133,6 +133,17 @@ Theorem c20_metrics_view_is_fold : forall (pre : list Views.line) (e : Views.lin
 Proof. exact ViewsProofs.metrics_view_is_fold_until_end. Qed.
 Print Assumptions c20_metrics_view_is_fold.
 
+(* ttft_ms / e2e_ms of that fold: first output (resp. first end) minus first start, saturating at 0, null when one
+   of the two frames was never seen — whatever else the stream contains, in whatever order *)
+Theorem c20_metrics_ttft_e2e : forall fs : list Views.mframe,
+  let m := Views.ms_metrics (ViewsProofs.msteps Views.mstate0 fs) in
+  Views.delta (Views.x_started m) (Views.x_first_out m)
+    = Views.delta (ViewsProofs.first_ts ViewsProofs.is_started fs) (ViewsProofs.first_ts ViewsProofs.is_output fs)
+  /\ Views.delta (Views.x_started m) (Views.x_ended m)
+    = Views.delta (ViewsProofs.first_ts ViewsProofs.is_started fs) (ViewsProofs.first_ts Views.is_ended fs).
+Proof. exact ViewsProofs.metrics_ttft_e2e. Qed.
+Print Assumptions c20_metrics_ttft_e2e.
+
 (* both views stop at the first session_ended *)
 Theorem c20_views_ignore_after_end : forall (pre : list Views.line) (e : Views.line) (rest1 rest2 : list Views.line),
   forallb ViewsProofs.valid_open pre = true -> ViewsProofs.valid_end e = true ->
